@@ -8,6 +8,15 @@
  *   case:   set=<index> g=<so>.<eo>,... cut=<re_verif_depthcut delta>     (g only when set >= 0)
  *           timeout cut=<n>      the call exceeded the CPU limit (env PROBE_RE_LIMIT_MS, default 2000)
  * request:  C <pat,pat,...>     compile only (whatever the size): rej | ok n=<emitted> res=<rnode_count + 3>
+ * request:  Q <op> <op> ...     a SEQUENCE of calls inside this one process, through the public interface only
+ *           (no direct parser call, so the file-scope state of regex.c is touched exactly as in the editor):
+ *             M<rset flags>:<pat,pat,...>      rset_make into the next slot ("-" = empty pattern, "~" = NULL entry)
+ *             G:<pat>                          bare regcomp(pat, REG_EXTENDED) + regfree (as stag.c does)
+ *             F<slot>:<nsub>:<eflags>:<line>   rset_find with the set in <slot>
+ * answer:   the answers of the operations joined by " ; ":
+ *             M, G:  rej | ok n=<emitted>          F:  none (slot holds no set) | <case> as above
+ * With PROBE_RE_FORK=1 every request line is answered by a fresh child forked from a parent that never
+ * called the regex code (pristine file-scope state); a child that dies answers "crash sig=<n>".
  * Every pattern and line lives in an exact-size malloc block, so that the sanitizer sees any read
  * past a terminator.  Patterns whose reservation exceeds PROBE_RE_MAXRES are answered "big res=<n>"
  * without compiling them.
@@ -15,6 +24,8 @@
 #include <setjmp.h>
 #include <signal.h>
 #include <sys/time.h>
+#include <sys/wait.h>
+#include <unistd.h>
 #include "regex.c"
 #include "vi.h"
 #include "probe_util.h"
@@ -49,106 +60,90 @@ static char *exact(char *s, int n)
 #define MAXP	64
 #define MAXG	256
 
-int main(void)
+static long limit = 2000;
+static long maxres = 200000;
+
+#define MAXSLOT	64
+
+/* Q: a sequence of rset_make / regcomp / rset_find calls in this process */
+static void handle_session(char *l)
 {
-	char *l;
-	long limit = getenv("PROBE_RE_LIMIT_MS") ? atol(getenv("PROBE_RE_LIMIT_MS")) : 2000;
-	long maxres = getenv("PROBE_RE_MAXRES") ? atol(getenv("PROBE_RE_MAXRES")) : 200000;
-	signal(SIGVTALRM, on_alarm);
-	while ((l = pu_getline())) {
-		char *w[8];
-		char *pats[MAXP];
-		int npat = 0, nw, flg, nsub, i, len;
-		struct rset *rs;
-		char *tok, *save;
-		struct sbuf *sb;
-		char *wrapped, *wp;
-		struct rnode *rn;
-		long res;
-		int emitted;
-		int componly;
-		nw = pu_words(l, w, 8);
-		componly = nw == 2 && !strcmp(w[0], "C");	/* C <pat,...>: compile only, no size shortcut */
-		if (componly) {
-			w[3] = w[1];
-			w[1] = w[2] = "0";
-			w[4] = "";
-		} else if (nw < 5 || strcmp(w[0], "R")) {
-			printf("?\n");
-			continue;
-		}
-		flg = atoi(w[1]);
-		nsub = atoi(w[2]);
-		if (nsub > MAXG)
-			nsub = MAXG;
-		for (tok = strtok_r(w[3], ",", &save); tok && npat < MAXP; tok = strtok_r(NULL, ",", &save)) {
-			char *p = pu_unhex(tok, &len, 0, 0);
-			pats[npat++] = exact(p, strlen(p));
-			free(p);
-		}
-		/* the combined pattern exactly as rset_make builds it, in an exact-size block */
-		sb = sbuf_make();
-		sbuf_chr(sb, '(');
-		for (i = 0; i < npat; i++) {
-			if (sbuf_len(sb) > 1)
-				sbuf_chr(sb, '|');
-			sbuf_chr(sb, '(');
-			sbuf_str(sb, pats[i]);
-			sbuf_chr(sb, ')');
-		}
-		sbuf_chr(sb, ')');
-		wrapped = exact(sbuf_buf(sb), sbuf_len(sb));
-		sbuf_free(sb);
-		wp = wrapped;
-		rn = rnode_parse(&wp);
-		res = rn ? rnode_count(rn) + 3 : -1;
-		if (rn)
-			rnode_free(rn);
-		if (res > maxres && !componly) {
-			printf("big res=%ld\n", res);
-			goto done;
-		}
-		emitted = -1;
-		if (rn) {		/* direct regcomp on the exact-size copy */
-			regex_t re;
-			if (!regcomp(&re, wrapped, REG_EXTENDED)) {
-				emitted = re->n;
-				regfree(&re);
+	static char *w[512];
+	struct rset *slot[MAXSLOT];
+	int nslot = 0;
+	int nw = pu_words(l, w, 512);
+	int k, i, len;
+	for (k = 1; k < nw; k++) {
+		char *o = w[k];
+		if (k > 1)
+			printf(" ; ");
+		if (o[0] == 'M' && nslot < MAXSLOT) {
+			char *pats[MAXP];
+			int npat = 0;
+			int flg = atoi(o + 1);
+			char *colon = strchr(o, ':');
+			char *tok, *save;
+			struct rset *rs;
+			for (tok = strtok_r(colon ? colon + 1 : "", ",", &save); tok && npat < MAXP; tok = strtok_r(NULL, ",", &save)) {
+				if (!strcmp(tok, "~")) {
+					pats[npat++] = NULL;
+				} else {
+					char *p = pu_unhex(tok, &len, 0, 0);
+					pats[npat++] = exact(p, strlen(p));
+					free(p);
+				}
 			}
-		}
-		if (componly) {
-			if (emitted < 0)
-				printf("rej\n");
+			rs = rset_make(npat, pats, flg);
+			slot[nslot++] = rs;
+			if (rs)
+				printf("ok n=%d", (*(struct regex **) rs)->n);	/* the regex_t is the first member of struct rset */
 			else
-				printf("ok n=%d res=%ld\n", emitted, res);
-			goto done;
-		}
-		rs = rset_make(npat, pats, flg);
-		if (!rs) {
-			printf("rej\n");
-			goto done;
-		}
-		printf("ok n=%d res=%ld", emitted, res);
-		for (tok = strtok_r(w[4], ",", &save); tok; tok = strtok_r(NULL, ",", &save)) {
-			char *colon = strchr(tok, ':');
-			int eflg = atoi(tok);
-			char *raw = pu_unhex(colon ? colon + 1 : "-", &len, 0, 0);
-			char *line = exact(raw, strlen(raw));
+				printf("rej");
+			for (i = 0; i < npat; i++)
+				free(pats[i]);
+		} else if (o[0] == 'G' && o[1] == ':') {
+			char *p = pu_unhex(o + 2, &len, 0, 0);
+			char *pat = exact(p, strlen(p));
+			regex_t re;
+			free(p);
+			if (!regcomp(&re, pat, REG_EXTENDED)) {
+				printf("ok n=%d", re->n);
+				regfree(&re);
+			} else {
+				printf("rej");
+			}
+			free(pat);
+		} else if (o[0] == 'F') {
+			int si = atoi(o + 1);
+			char *c1 = strchr(o, ':');
+			char *c2 = c1 ? strchr(c1 + 1, ':') : NULL;
+			char *c3 = c2 ? strchr(c2 + 1, ':') : NULL;
+			int nsub = c1 ? atoi(c1 + 1) : 0;
+			int eflg = c2 ? atoi(c2 + 1) : 0;
+			char *raw, *line;
 			int grps[MAXG * 2];
 			volatile int cut0 = re_verif_depthcut;
 			int set;
+			if (nsub > MAXG)
+				nsub = MAXG;
+			if (si < 0 || si >= nslot || !slot[si] || !c3) {
+				printf("none");
+				continue;
+			}
+			raw = pu_unhex(c3 + 1, &len, 0, 0);
+			line = exact(raw, strlen(raw));
 			free(raw);
 			for (i = 0; i < nsub * 2; i++)
 				grps[i] = -7;
 			if (sigsetjmp(jb, 1)) {
-				printf(" | timeout cut=%d", re_verif_depthcut - cut0);
+				printf("timeout cut=%d", re_verif_depthcut - cut0);
 				free(line);
 				continue;
 			}
 			timer_set(limit);
-			set = rset_find(rs, line, nsub, grps, eflg);
+			set = rset_find(slot[si], line, nsub, grps, eflg);
 			timer_set(0);
-			printf(" | set=%d", set);
+			printf("set=%d", set);
 			if (set >= 0) {
 				printf(" g=");
 				for (i = 0; i < nsub; i++)
@@ -156,14 +151,162 @@ int main(void)
 			}
 			printf(" cut=%d", re_verif_depthcut - cut0);
 			free(line);
+		} else {
+			printf("?");
 		}
-		printf("\n");
-		rset_free(rs);
+	}
+	printf("\n");
+	for (i = 0; i < nslot; i++)
+		if (slot[i])
+			rset_free(slot[i]);
+	fflush(stdout);
+}
+
+static void handle(char *l)
+{
+	char *w[8];
+	char *pats[MAXP];
+	int npat = 0, nw, flg, nsub, i, len;
+	struct rset *rs;
+	char *tok, *save;
+	struct sbuf *sb;
+	char *wrapped, *wp;
+	struct rnode *rn;
+	long res;
+	int emitted;
+	int componly;
+	nw = pu_words(l, w, 8);
+	componly = nw == 2 && !strcmp(w[0], "C");	/* C <pat,...>: compile only, no size shortcut */
+	if (componly) {
+		w[3] = w[1];
+		w[1] = w[2] = "0";
+		w[4] = "";
+	} else if (nw < 5 || strcmp(w[0], "R")) {
+		printf("?\n");
+		return;
+	}
+	flg = atoi(w[1]);
+	nsub = atoi(w[2]);
+	if (nsub > MAXG)
+		nsub = MAXG;
+	for (tok = strtok_r(w[3], ",", &save); tok && npat < MAXP; tok = strtok_r(NULL, ",", &save)) {
+		char *p = pu_unhex(tok, &len, 0, 0);
+		pats[npat++] = exact(p, strlen(p));
+		free(p);
+	}
+	/* the combined pattern exactly as rset_make builds it, in an exact-size block */
+	sb = sbuf_make();
+	sbuf_chr(sb, '(');
+	for (i = 0; i < npat; i++) {
+		if (sbuf_len(sb) > 1)
+			sbuf_chr(sb, '|');
+		sbuf_chr(sb, '(');
+		sbuf_str(sb, pats[i]);
+		sbuf_chr(sb, ')');
+	}
+	sbuf_chr(sb, ')');
+	wrapped = exact(sbuf_buf(sb), sbuf_len(sb));
+	sbuf_free(sb);
+	wp = wrapped;
+	rn = rnode_parse(&wp);
+	res = rn ? rnode_count(rn) + 3 : -1;
+	if (rn)
+		rnode_free(rn);
+	if (res > maxres && !componly) {
+		printf("big res=%ld\n", res);
+		goto done;
+	}
+	emitted = -1;
+	if (rn) {		/* direct regcomp on the exact-size copy */
+		regex_t re;
+		if (!regcomp(&re, wrapped, REG_EXTENDED)) {
+			emitted = re->n;
+			regfree(&re);
+		}
+	}
+	if (componly) {
+		if (emitted < 0)
+			printf("rej\n");
+		else
+			printf("ok n=%d res=%ld\n", emitted, res);
+		goto done;
+	}
+	rs = rset_make(npat, pats, flg);
+	if (!rs) {
+		printf("rej\n");
+		goto done;
+	}
+	printf("ok n=%d res=%ld", emitted, res);
+	for (tok = strtok_r(w[4], ",", &save); tok; tok = strtok_r(NULL, ",", &save)) {
+		char *colon = strchr(tok, ':');
+		int eflg = atoi(tok);
+		char *raw = pu_unhex(colon ? colon + 1 : "-", &len, 0, 0);
+		char *line = exact(raw, strlen(raw));
+		int grps[MAXG * 2];
+		volatile int cut0 = re_verif_depthcut;
+		int set;
+		free(raw);
+		for (i = 0; i < nsub * 2; i++)
+			grps[i] = -7;
+		if (sigsetjmp(jb, 1)) {
+			printf(" | timeout cut=%d", re_verif_depthcut - cut0);
+			free(line);
+			continue;
+		}
+		timer_set(limit);
+		set = rset_find(rs, line, nsub, grps, eflg);
+		timer_set(0);
+		printf(" | set=%d", set);
+		if (set >= 0) {
+			printf(" g=");
+			for (i = 0; i < nsub; i++)
+				printf("%s%d.%d", i ? "," : "", grps[i * 2], grps[i * 2 + 1]);
+		}
+		printf(" cut=%d", re_verif_depthcut - cut0);
+		free(line);
+	}
+	printf("\n");
+	rset_free(rs);
 done:
-		for (i = 0; i < npat; i++)
-			free(pats[i]);
-		free(wrapped);
-		fflush(stdout);
+	for (i = 0; i < npat; i++)
+		free(pats[i]);
+	free(wrapped);
+	fflush(stdout);
+}
+
+int main(void)
+{
+	char *l;
+	int forkmode = getenv("PROBE_RE_FORK") && atoi(getenv("PROBE_RE_FORK"));
+	if (getenv("PROBE_RE_LIMIT_MS"))
+		limit = atol(getenv("PROBE_RE_LIMIT_MS"));
+	if (getenv("PROBE_RE_MAXRES"))
+		maxres = atol(getenv("PROBE_RE_MAXRES"));
+	signal(SIGVTALRM, on_alarm);
+	while ((l = pu_getline())) {
+		if (forkmode) {
+			pid_t pid;
+			int status = 0;
+			fflush(stdout);
+			pid = fork();
+			if (pid == 0) {
+				if (l[0] == 'Q' && l[1] == ' ')
+					handle_session(l);
+				else
+					handle(l);
+				fflush(stdout);
+				_exit(0);
+			}
+			if (pid < 0 || waitpid(pid, &status, 0) < 0 || !WIFEXITED(status) || WEXITSTATUS(status)) {
+				printf("crash sig=%d\n", WIFSIGNALED(status) ? WTERMSIG(status) : -1);
+				fflush(stdout);
+			}
+			continue;
+		}
+		if (l[0] == 'Q' && l[1] == ' ')
+			handle_session(l);
+		else
+			handle(l);
 	}
 	return 0;
 }
